@@ -119,10 +119,40 @@ def judge_history(h, res):
     return f, stats
 
 
+def clock_slice(V):
+    """'Successive days' are the user's own calendar days: without the test override, the date the loader calls today
+    must be the local date. Observed in two zones chosen so that, at any moment, at least one of them is on a different
+    calendar day than UTC."""
+    import subprocess
+    for tz, hours in (("<-12>12", -12), ("<+14>-14", 14), ("UTC", 0)):
+        env = dict(os.environ, TZ=tz)
+        out = os.path.join(common.WORK, "clock-%d.json" % os.getpid())
+        t0 = datetime.datetime.now(datetime.timezone.utc)
+        p = subprocess.run([common.HARNESS_BIN, "clock", out], input=b'{"id": "c"}\n', env=env, stdout=subprocess.DEVNULL, stderr=subprocess.PIPE, timeout=60)
+        t1 = datetime.datetime.now(datetime.timezone.utc)
+        try:
+            with open(out) as f:
+                got = json.loads(f.readline())["today_local"]
+            os.remove(out)
+        except (OSError, ValueError, KeyError):
+            V.unjudged += 1
+            continue
+        z = datetime.timezone(datetime.timedelta(hours=hours))
+        ok = {t0.astimezone(z).date().isoformat(), t1.astimezone(z).date().isoformat()}     # either side of a midnight
+        V.count()
+        V.bump("clock_observations")
+        if t0.astimezone(z).date() != t0.date():
+            V.bump("clock_observations_on_another_day_than_utc")
+        if got not in ok:
+            V.violation("today's date is %s in zone %s where the local calendar day is %s" % (got, tz, sorted(ok)),
+                        {"kind": "clock", "prop": PROP, "tz": tz, "got": got, "expected": sorted(ok)}, {"what": "today is not the local date"})
+
+
 def run(tier):
     seed = common.seed()
     common.build()
     V = Verdict(PROP, tier)
+    clock_slice(V)
     V.rule = ("histories of 1-8 runs with non-decreasing 'today', a force flag, remote data containing everything published before that day (sometimes "
               "today's too) and 1-12 look-ups per run in orders biased to 'old date first, then a date newer than the cache', weekends first, new-year "
               "look-backs; the cache (shared in-memory map, or a real CsvRatesCache directory) persists across the runs of a history; instrumented cache "
@@ -165,7 +195,7 @@ def run(tier):
                             {"what": x["what"]})
     finally:
         common.cleanup(wd)
-    return V.finish(floor_eval=100, floor_nontrivial=20, floors={"lookups_judged": 2000, "no_download_claims_judged": 200, "histories_csv": 50})
+    return V.finish(floor_eval=100, floor_nontrivial=20, floors={"lookups_judged": 2000, "no_download_claims_judged": 200, "histories_csv": 50, "clock_observations_on_another_day_than_utc": 1})
 
 
 def replay(rec):
